@@ -41,6 +41,7 @@ func main() {
 	mutOut := flag.String("mutant-out", "", "internal: where the worker writes its results")
 	renames := flag.Bool("renames", false, "with -mutate: sweep behaviour-preserving renames of locals instead (every report is a false alarm)")
 	par := flag.Int("par", 0, "mutation sweep: parallel workers (default NumCPU/2)")
+	genEffdom := flag.String("gen-effdom", "", "write the E-DOM reference table of the analysed tree to this file")
 	limit := flag.Int("limit", 0, "mutation sweep: at most this many mutants (deterministic thinning)")
 	flag.Parse()
 
@@ -72,6 +73,11 @@ func main() {
 	if *warm {
 		p := guardLoad(*repo, "")
 		fmt.Printf("loaded %d packages, %d files, %d functions\n", len(p.All), p.NFiles, p.NFuncs)
+		return
+	}
+	if *genEffdom != "" {
+		p := guardLoad(*repo, "")
+		genEffdomTable(p, *genEffdom)
 		return
 	}
 	if *mutWorker != "" {
@@ -163,7 +169,7 @@ func runProp(spec *propSpec, p *Prog, tier, verif string, seed int) (rc int) {
 			rc = 2
 		}
 	}()
-	spec.run(c)
+	spec.runAll(c)
 	extra := map[string]interface{}{}
 	if tier == "thorough" {
 		if spec.thorough != nil {
@@ -172,7 +178,7 @@ func runProp(spec *propSpec, p *Prog, tier, verif string, seed int) (rc int) {
 		// second build-tag variant: bundle_preserve swaps enableBundlePreserve in pkg/core and cmd
 		p2 := loadProg(p.RepoDir, "bundle_preserve", nil)
 		c2 := newCtx(spec.id, tier, p2)
-		spec.run(c2)
+		spec.runAll(c2)
 		if spec.thorough != nil {
 			spec.thorough(c2)
 		}
